@@ -78,7 +78,7 @@ def _run_kind(ctx, spec, rng):
     r = spec[1]
     d = 1 + r % 6
     real = bool((r // 6) % 2)
-    seed = int(rng.integers(0, 2 ** 31))
+    seed = [int(rng.integers(0, 2 ** 31)), 0, 1, int(rng.integers(2, 100))][(r // 9) % 4]  # large, zero, one and small seeds
     which = r % 9
     g_before = snap.global_rng_digest()
     if which == 0:
@@ -209,7 +209,7 @@ def _catalog():
 def _run_hist(ctx, spec, rng):
     """History monitor: a random interleaving of seeded / unseeded calls and global-RNG perturbations is logged, then checked offline."""
     cat = _catalog()
-    seeds = [int(s) for s in rng.integers(0, 2 ** 31, size=3)]
+    seeds = [int(s) for s in rng.integers(0, 2 ** 31, size=2)] + [0, 1]  # zero is a seed like any other
     log = []
     foreign = np.random.default_rng(int(rng.integers(0, 2 ** 31)))
     for step in range(30 if ctx.tier == "quick" else 60):
